@@ -16,7 +16,11 @@ pub(crate) use quantity_arg;
 
 macro_rules! scalar_arg {
     ($args:ident) => {
-        quantity_arg!($args).as_scalar().unwrap()
+        // Not a scalar at run time (e.g. `exp(inf m)`, where the type checker treats `inf`
+        // as dimension-polymorphic): report a runtime error instead of panicking.
+        quantity_arg!($args)
+            .as_scalar()
+            .map_err(|e| Box::new($crate::interpreter::RuntimeErrorKind::QuantityError(e)))?
     };
 }
 pub(crate) use scalar_arg;
